@@ -9,6 +9,7 @@ import (
 	"go/token"
 	"go/types"
 	"path/filepath"
+	"sort"
 	"strconv"
 	"strings"
 	"time"
@@ -184,6 +185,7 @@ func goastVerdict(af *ast.File, fset *token.FileSet, names map[string]string) ob
 }
 
 func checkC09(c *Ctx) {
+	c09Package(c)
 	c.Assume("go/types (Uses, Defs, PkgName, scopes) gives the reference meaning of every identifier, independently of the resolvers under test")
 	mc, err := RunTLC(TLCRun{Module: "Resolve", Workers: 8, Timeout: 10 * time.Minute, Cfg: fmt.Sprintf("CONSTANTS Names = {\"a\",\"b\"} ImpPaths = {\"p1\",\"p2\",\"C\"} MaxSpecs = %d\nINIT Init\nNEXT Next\nINVARIANTS RefusesExactly TableSound\nCHECK_DEADLOCK FALSE\n", map[bool]int{true: 3, false: 4}[c.Quick()])})
 	if err != nil || !mc.OK() {
@@ -482,5 +484,75 @@ func init() {
 			return ""
 		}
 		return rcReplay(b)
+	}
+}
+
+// c09Package: the syntax-based resolver asked through a package decoration (Decorator.ParseDir,
+// DecorateNode on an *ast.Package). Every identifier must get the path it gets when its file is
+// decorated alone - the files import different packages under one name, and //line directives make
+// positions report other file names.
+func c09Package(c *Ctx) {
+	names := map[string]string{"example.com/one": "one", "example.com/two": "two", "example.com/three": "three"}
+	variants := map[string][2]string{
+		"same-alias":     {"package p\n\nimport x \"example.com/one\"\n\nvar A = x.V\n\nfunc fa() int { return x.F(A) }\n", "package p\n\nimport x \"example.com/two\"\n\nvar B = x.V\n"},
+		"line-directive": {"package p\n\nimport x \"example.com/one\"\n\n//line b.go:100\nvar A = x.V\n\nfunc fa() int { return x.F(A) }\n", "package p\n\nimport x \"example.com/two\"\n\nvar B = x.V\n"},
+		"line-elsewhere": {"package p\n\nimport \"example.com/one\"\n\n//line gen.y:7\nvar A = one.V\n", "package p\n\nimport (\n\t\"example.com/three\"\n\t\"example.com/two\"\n)\n\n//line a.go:1\nvar B = two.V + three.V\n"},
+	}
+	pathsOf := func(d *decorator.Decorator, af *ast.File) []string {
+		var out []string
+		ast.Inspect(af, func(n ast.Node) bool {
+			if id, ok := n.(*ast.Ident); ok {
+				if dn, ok := d.Dst.Nodes[id].(*dst.Ident); ok {
+					out = append(out, id.Name+"@"+dn.Path)
+				}
+			}
+			return true
+		})
+		return out
+	}
+	var keys []string
+	for k := range variants {
+		keys = append(keys, k)
+	}
+	sort.Strings(keys)
+	for _, k := range keys {
+		srcs := variants[k]
+		key := "package-decoration|" + k
+		c.Eval(key, true)
+		// reference: every file alone
+		var want [][]string
+		for i, src := range srcs {
+			fset := token.NewFileSet()
+			af, err := parser.ParseFile(fset, []string{"a.go", "b.go"}[i], src, parser.ParseComments)
+			if err != nil {
+				c.Infra("package source does not parse: " + err.Error())
+				return
+			}
+			d := decorator.NewDecoratorWithImports(fset, "example.com/p", goast.WithResolver(simple.New(names)))
+			if _, err := d.DecorateFile(af); err != nil {
+				c.Infra("package source is refused: " + err.Error())
+				return
+			}
+			want = append(want, pathsOf(d, af))
+		}
+		fset := token.NewFileSet()
+		pkg := &ast.Package{Name: "p", Files: map[string]*ast.File{}}
+		var afs []*ast.File
+		for i, src := range srcs {
+			af, _ := parser.ParseFile(fset, []string{"a.go", "b.go"}[i], src, parser.ParseComments)
+			pkg.Files[[]string{"a.go", "b.go"}[i]] = af
+			afs = append(afs, af)
+		}
+		d := decorator.NewDecoratorWithImports(fset, "example.com/p", goast.WithResolver(simple.New(names)))
+		var err error
+		if msg := guard(func() { _, err = d.DecorateNode(pkg) }); msg != "" || err != nil {
+			c.Fail(Finding{Sig: "package-decoration-fails", Input: key, What: fmt.Sprintf("%s %v", msg, err), Replay: obj{"kind": "none"}})
+			continue
+		}
+		for i, af := range afs {
+			if got := pathsOf(d, af); strings.Join(got, " ") != strings.Join(want[i], " ") {
+				c.Fail(Finding{Sig: "package-decoration-paths-differ", Input: key, What: fmt.Sprintf("file %d decorated as part of the package: %v; decorated alone: %v", i+1, got, want[i]), Replay: obj{"kind": "none"}})
+			}
+		}
 	}
 }
